@@ -52,4 +52,4 @@ if True:
         f.write("| seed | property | exit | obligations that fail (engine, label) | undecided (lost anchor / unsupported) |\n|---|---|---|---|---|\n")
         for r in rows:
             f.write("| %s | %s | %d | %s | %s |\n" % (r["seed"], r["property"], r["rc"],
-                    ", ".join("`%s` (%s, %s)" % x for x in r["failed"]) or "-", ", ".join("`%s`" % u for u in r["undecided"]) or "-"))
+                    ", ".join("`%s` (%s, %s)" % tuple(x) for x in r["failed"]) or "-", ", ".join("`%s`" % u for u in r["undecided"]) or "-"))
